@@ -143,6 +143,8 @@ func (etx *EVMTransaction) NewEVM() *ethvm.EVM {
 		BlockNumber: new(big.Int).SetInt64(etx.header.GetHeight()),
 		Time:        new(big.Int).SetInt64(etx.header.Time.Unix()),
 		Difficulty:  new(big.Int).Set(DefaultDifficulty), // 0 or 1, does not matter, api show 1, so let say it here as 1
+		// there is no fee market here, but London is active: the BASEFEE opcode reads this field
+		BaseFee: new(big.Int),
 	}
 
 	ethConfig := EthereumConfig(etx.header.ChainID)
